@@ -190,7 +190,19 @@ def rand_selector(rng, plate, forms=None):
     """-> (selector, reference index list, shape) using the documented grammar."""
     rows, cols = list(plate.row_names), list(plate.column_names)
     form = rng.choice(forms or ['row', 'cell_str', 'cell_tuple', 'rowslice', 'two', 'two', 'row_slice_col',
-                                'list', 'colslice', 'whole'])
+                                'list', 'colslice', 'whole', 'square_corner'])
+    if form == 'square_corner':
+        # geometry corner of a non-square plate: the first n_rows columns (or the first n_cols rows) - a range whose length
+        # equals the size of the *other* axis
+        if len(cols) > len(rows):
+            sel = (slice(None), slice(_atom(rng, cols, 0), _atom(rng, cols, len(rows) - 1)))
+        elif len(rows) > len(cols):
+            sel = (slice(_atom(rng, rows, 0), _atom(rng, rows, len(cols) - 1)), slice(None))
+        else:
+            form = 'two'
+        if form == 'square_corner':
+            idx, shape = R.ref_address(rows, cols, sel)
+            return sel, idx, shape
     if form == 'row':
         i = rng.randrange(len(rows))
         sel = _atom(rng, rows, i)
